@@ -16,6 +16,7 @@ pub use crate::router::{
     Ack, Connection, Event, PauseReason, ScheduleReason, ShadowRequest, Status, Tracker,
 };
 pub use crate::segments::{CommitLog, Position, Storage};
+pub use crate::server::verif_hooks::{verif_remote, WillHandlers};
 
 thread_local! {
     static CHOICES: RefCell<Vec<String>> = const { RefCell::new(Vec::new()) };
